@@ -182,6 +182,9 @@ def _bodies() -> list[list[Any]]:
         [M.Incr("c1")],
         [M.Text(" "), M.Capture("cap1", [M.Text("q")]), M.Text("\n")],
         [M.Text(" "), M.LiquidTag([M.Assign("z", M.Filt(M.Lit(3)))]), M.Text(" ")],
+        # captured text that is whitespace only (printed after the nest, compared exactly)
+        [M.Capture("cap1", [M.Text(" \n ")])],
+        [M.Text("\t"), M.Capture("cap1", [M.Text("  "), M.Assign("z", M.Filt(M.Lit(4))), M.Text("\u00a0\n")]), M.Text(" ")],
     ]
 
 
